@@ -1,7 +1,7 @@
 (* C13: hypotheses of the exact-arithmetic theorems bundled in one record, the theorems restated against it (the
    statements PropsC13.v exposes), and the full-strength statement C13_full. *)
 From Coq Require Import List Bool Arith Lia Ring Field.
-From Core Require Import C12_Ops C13_Model C13_Proofs C13_Reduction.
+From Core Require Import C12_Ops C13_Model C13_Proofs C13_Reduction C13_Loop C13_Link.
 Import ListNotations.
 
 (* a field with involution and a vector type with an inner product obeying the weak (scalar) laws; sqrt is a
@@ -12,6 +12,7 @@ Record arn_laws {T V : Type} (o : ops T) (vo : vops T V) : Prop := mk_arn_laws {
   a_conj_mul : forall a b, oconj o (omul o a b) = omul o (oconj o a) (oconj o b);
   a_conj_opp : forall a, oconj o (oopp o a) = oopp o (oconj o a);
   a_conj_div : forall a b, oconj o (odiv o a b) = odiv o (oconj o a) (oconj o b);
+  a_dot_add_r : forall u v w, vdot vo u (vadd vo v w) = oadd o (vdot vo u v) (vdot vo u w);
   a_dot_sub_r : forall u v w, vdot vo u (vsub vo v w) = osub o (vdot vo u v) (vdot vo u w);
   a_dot_scale_r : forall u a v, vdot vo u (vscale vo a v) = omul o a (vdot vo u v);
   a_dot_divs_r : forall u v a, vdot vo u (vdivs vo v a) = odiv o (vdot vo u v) a;
@@ -68,24 +69,39 @@ Theorem gmres_optimal_b (A : V -> V) (q : nat -> V) (H : nat -> nat -> T) (m : n
 Proof. intros. destruct L. eapply (gmres_optimal_from_normal_equations o vo); eauto. Qed.
 End Bundled.
 
-(* Full-strength statement (model with the defect flags cleared): for every column, without clipping/breakdown
-   before the loop ends, the vector returned by gmres_fwd is x0 + sum_j y_j q_j where q_0..q_(k-1) is an orthonormal
-   basis of K_k(A, r0) (k = number of steps) and its residual is minimal over x0 + K_k.
-   Proved: the number of products (gmres_products), modified Gram-Schmidt orthogonality and the Arnoldi step
-   (orthonormality + relation: arnoldi_step_b), minimality from the normal equations in the abstract form
-   "residual orthogonal to every A q_j" (gmres_minimal_b) and residual <= ||r0||.
-   Missing for C13_full: the induction over the whole loop and the coordinate computation showing that the
-   code's normal equations  (H~^H H~) y = H~^H (beta e1)  solved by the oracle [solve] are exactly those
-   orthogonality conditions (the reduction ||r0 - A Q y|| = ||beta e1 - H~ y||). *)
+(* the Arnoldi invariants over the whole loop of one column *)
+Section Bundled2.
+Context {T V : Type} (o : ops T) (vo : vops T V).
+Hypothesis L : arn_laws o vo.
+Theorem arnoldi_invariant_b (A : V -> V) (tol : T) (r0 : V) (K : nat) : vnrm o vo r0 <> o0 o ->
+  (forall k, k < K -> unclipped o vo A tol (acs o vo A tol r0 k)) ->
+  forall k, k <= K -> AInv o vo A k (acs o vo A tol r0 k).
+Proof. intros. destruct L. eapply (arnoldi_invariant o vo); eauto. Qed.
+End Bundled2.
+
+(* Full-strength statement, one column, model with the defect flag gmres_square_H cleared.  Explicit hypotheses:
+   exact-arithmetic laws; A linear (it has an adjoint As); m <= n unclipped Arnoldi steps during which the loop's own
+   test stays true (no breakdown); no row masked as padding; the oracle [solve] solves the system it is handed.
+   Conclusion: gmres_fwd returns x, after exactly m steps, such that no x' = x0 + sum_j y'_j q_j - no element of
+   x0 + K_m(A, r0) - has a smaller residual norm, and the residual of x is at most the initial residual. *)
 Definition C13_full : Prop :=
   forall (T V : Type) (o : ops T) (vo : vops T V), arn_laws o vo ->
-  forall (A : V -> V) (solve : list (list T) -> list T -> list T),
-  (forall G g, length (solve G g) = length g /\
-     forall i row, nth_error G i = Some row -> lsum o (zipw (omul o) row (solve G g)) = nth i g (o0 o)) ->
+  forall (A As : V -> V), (forall u v, vdot vo u (A v) = vdot vo (As u) v) ->
+  forall (solve : list (list T) -> list T -> list T) (tol : T) (m : nat) (b x0 : V),
+  vnrm o vo (vsub vo b (A x0)) <> o0 o ->
+  (forall k, k < m -> unclipped o vo A tol (acs o vo A tol (vsub vo b (A x0)) k)) ->
+  Forall (fun p : bool => p = false) (pad_of o vo A tol m b x0) ->
+  (length (solve (Gm o vo A tol m b x0) (rhsm o vo A tol m b x0)) = m /\
+   forall i, i < m -> lsum o (zipw (omul o) (nth i (Gm o vo A tol m b x0) []) (solve (Gm o vo A tol m b x0) (rhsm o vo A tol m b x0)))
+                      = nth i (rhsm o vo A tol m b x0) (o0 o)) ->
+  forall n, m <= n ->
+  (forall k, k < m -> arnoldi_cond o tol (Nat.min m n) ([acs o vo A tol (vsub vo b (A x0)) k], k) = true) ->
   forall (Pos : T -> Prop), (forall v, Pos (vdot vo v v)) ->
-  forall tol m n (b x0 : V),
-  let r := gmres_fwd o vo A solve false tol m n [b] [x0] in
-  forall x, gsol r = [x] ->
-  forall (ys : list T) (c : acol (T:=T) (V:=V)), fst (arnoldi_fact o vo A tol m n [vsub vo b (A x0)]) = [c] ->
-  Pos (osub o (vdot vo (lsq_res vo (map A (firstn m (aqs c))) ys (vsub vo b (A x0))) (lsq_res vo (map A (firstn m (aqs c))) ys (vsub vo b (A x0))))
-              (vdot vo (vsub vo b (A x)) (vsub vo b (A x)))).
+  exists x, gsol (gmres_fwd o vo A solve false tol m n [b] [x0]) = [x] /\ gsteps (gmres_fwd o vo A solve false tol m n [b] [x0]) = m /\
+    (forall y' : list T, Pos (osub o (vdot vo (vsub vo b (A (cand o vo A tol m b x0 y'))) (vsub vo b (A (cand o vo A tol m b x0 y'))))
+                                    (vdot vo (vsub vo b (A x)) (vsub vo b (A x))))) /\
+    Pos (osub o (vdot vo (vsub vo b (A x0)) (vsub vo b (A x0))) (vdot vo (vsub vo b (A x)) (vsub vo b (A x)))).
+
+Theorem C13_full_proved : C13_full.
+Proof. intros T V o vo L A As Hadj solve tol m b x0 Hnz Hunc Hpad Hsolve n Hmn Hcond Pos HP. destruct L.
+  eapply (gmres_fwd_minimal o vo); eauto. Qed.
